@@ -1,6 +1,7 @@
 package main
 
 import (
+	"math"
 	"sync"
 	"context"
 	"encoding/json"
@@ -664,6 +665,11 @@ func runOneWalk(op string, id int, c gen.WalkCase) (line walkLine) {
 		untouched = false
 	}
 	line.Probe = map[string]interface{}{"untouched": untouched, "fresh": fresh}
+	if op == "walk" && !c.Spec.HasLoop() {
+		if ok, ran := nonJSONTwinProbe(ctx, c, ctl, props); ran {
+			line.Probe["consumesNonJSON"] = ok
+		}
+	}
 	if op == "step" {
 		line.Probe["guardStopsAtFirstAccept"] = guardStops
 		line.Probe["guardCalls"] = guardCalls
@@ -702,6 +708,65 @@ func runOneWalk(op string, id int, c gen.WalkCase) (line walkLine) {
 		line.Probe["repeatable"] = gen.Canon(obs) == gen.Canon(obs2)
 	}
 	return
+}
+
+// nonJSONTwinProbe walks the case again with messages that are not JSON data: every message that
+// is a map gets a member holding +Inf (a float64 that encoding/json refuses).  Messages are Go
+// values; whether one can be serialised must not matter to the accounting.  Judged on the walk's
+// own report: at a node with message branching and no action, a pending message is consumed by the
+// stride, and what a stride consumed is the first message still pending (the very object).
+func nonJSONTwinProbe(ctx context.Context, c gen.WalkCase, ctl *core.Control, props core.StepProps) (ok bool, ran bool) {
+	msgs := gen.DeepCopy(c.Msgs).([]interface{})
+	any := false
+	for _, m := range msgs {
+		if mm, is := m.(map[string]interface{}); is {
+			mm["zz"] = math.Inf(1)
+			any = true
+		}
+	}
+	if !any {
+		return true, false
+	}
+	spec, err := buildSpec(context.Background(), c.Spec)
+	if err != nil || c.Spec.Uncompiled {
+		return true, false
+	}
+	ok = true
+	defer func() {
+		if r := recover(); r != nil {
+			ok, ran = false, true
+		}
+	}()
+	w, err := spec.Walk(ctx, stateOf(c.St), msgs, ctl, props)
+	if err != nil || w == nil {
+		return true, false
+	}
+	pend := msgs
+	for _, s := range w.Strides {
+		if s == nil || s.From == nil {
+			continue
+		}
+		n := spec.Nodes[s.From.NodeName]
+		if n != nil && n.Branches != nil && n.Branches.Type == "message" && n.Action == nil && n.ActionSource == nil && len(pend) > 0 && s.Consumed == nil {
+			ok = false
+		}
+		if s.Consumed != nil {
+			if len(pend) == 0 {
+				ok = false
+				break
+			}
+			a, isA := s.Consumed.(map[string]interface{})
+			b, isB := pend[0].(map[string]interface{})
+			if isA != isB || (isA && reflect.ValueOf(a).Pointer() != reflect.ValueOf(b).Pointer()) {
+				ok = false
+			}
+			pend = pend[1:]
+		}
+	}
+	if len(w.Remaining) > len(pend) {
+		ok = false
+	}
+	return ok, true
 }
 
 func stateJSONraw(st *core.State) interface{} {
